@@ -193,8 +193,6 @@ def classify_solve(line, impl, cls):
     f = failing(case, impl)
     if not f:
         return cls
-    if fm.fast_path_applies(case) and not impl.endswith("lp=1") and not fm.fast_path_core(case):
-        return "fast_path"
     cs = [c for _, c in f]
     return cs[0] if all(c is not None for c in cs) else None
 
